@@ -1,7 +1,7 @@
 package main
 
 // C12 — one-hop paths. Ops: one line per packet handed to the real fast path
-//   ohp <localIA> <if:nbIA,...> <ingress> <srcIA> <dstIA> <hdrBytes> <addrLen> <dataLen> <region> <resolves> <key>
+//   ohp <localIA> <if:nbIA,...> <ingress> <srcIA> <dstIA> <hdrBytes> <addrLen> <dataLen> <payloadLen> <region> <resolves> <key>
 // answer: drop | fwd <egress> <32 path bytes>
 // The property predicate (independent of the model) is evaluated on every packet.
 
@@ -78,6 +78,8 @@ type ohpParams struct {
 	p          onehop.Path
 	l4         l4Kind
 	slack      int
+	pldDelta   int // added to the PayloadLen field after serialisation
+	trunc      int // bytes cut off / appended at the end of the packet
 	reserved   bool // set reserved bits of the info/hop fields in the raw bytes
 	mut        string
 	resolvesOK bool
@@ -108,6 +110,23 @@ func (q *ohpParams) raw(r *vlib.Rand) []byte {
 	if q.slack > 0 {
 		raw = withSlack(raw, q.slack, r)
 	}
+	if q.pldDelta != 0 {
+		v := int(binary.BigEndian.Uint16(raw[6:8])) + q.pldDelta
+		if v < 0 {
+			v = 65535
+		}
+		binary.BigEndian.PutUint16(raw[6:8], uint16(v))
+	}
+	if q.trunc < 0 {
+		h, _ := parseRawHdr(raw)
+		if n := len(raw) + q.trunc; n >= h.hdrBytes {
+			raw = raw[:n]
+		} else {
+			raw = raw[:h.hdrBytes]
+		}
+	} else if q.trunc > 0 {
+		raw = append(raw, r.Bytes(q.trunc)...)
+	}
 	return raw
 }
 
@@ -125,8 +144,8 @@ func ohpOp(a *asCfg, via uint16, raw []byte, resolves bool) string {
 	if resolves {
 		res = 1
 	}
-	return fmt.Sprintf("ohp %d %s %d %d %d %d %d %d %s %d %s", uint64(a.ia), a.nbString(), a.ingressOf(via),
-		h.srcIA, h.dstIA, h.hdrBytes, h.addrLen, len(raw), vlib.Hex(h.pathRegion(raw)), res, vlib.Hex(a.key))
+	return fmt.Sprintf("ohp %d %s %d %d %d %d %d %d %d %s %d %s", uint64(a.ia), a.nbString(), a.ingressOf(via),
+		h.srcIA, h.dstIA, h.hdrBytes, h.addrLen, len(raw), h.payloadLen, vlib.Hex(h.pathRegion(raw)), res, vlib.Hex(a.key))
 }
 
 func ohpAnswer(res router.VerifR2Result, in []byte) string {
@@ -204,6 +223,9 @@ func (c *c12) predicate(a *asCfg, via uint16, raw []byte, res router.VerifR2Resu
 		!bytes.Equal(out.Payload, raw[h.hdrBytes:]) {
 		bad("out-garbled", "forwarded packet differs from the received one outside the path")
 		return
+	}
+	if h.payloadLen != len(raw)-h.hdrBytes {
+		bad("payloadlen", "forwarded although PayloadLen disagrees with the bytes after the header")
 	}
 	internalSide := a.ingressOf(via) == 0
 	if internalSide {
@@ -370,7 +392,7 @@ func (c *c12) run() {
 			}
 			inOnly := false
 			if r.Chance(55) {
-				switch m := r.Intn(19); m {
+				switch m := r.Intn(21); m {
 				case 0:
 					mut, q.src = "src-other", other
 				case 1:
@@ -435,6 +457,12 @@ func (c *c12) run() {
 					mut = "expired"
 					q.p.Info.Timestamp = now - uint32(r.Range(100000, 10000000))
 					remac()
+				case 19:
+					mut = "payloadlen-field"
+					q.pldDelta = []int{-1, 1, -8, 8, 255}[r.Intn(5)]
+				case 20:
+					mut = "payload-bytes"
+					q.trunc = []int{-1, 1, -8, 4}[r.Intn(4)]
 				case 17:
 					mut, inOnly = "in-wrong-interface", true
 				case 18:
@@ -459,7 +487,11 @@ func (c *c12) run() {
 					viaB = bIf + 1
 				}
 				if mut == "in-mutated" {
-					switch r.Intn(6) {
+					switch r.Intn(8) {
+					case 6:
+						q2.pldDelta, tag = []int{-1, 1, 8}[r.Intn(3)], "in/payloadlen-field"
+					case 7:
+						q2.trunc, tag = []int{-1, 1, 4}[r.Intn(3)], "in/payload-bytes"
 					case 0:
 						q2.dst, tag = other, "in/dst-other"
 					case 1:
